@@ -93,7 +93,7 @@ func spawnWorker(self string, p *Prop, tier string, seed uint64, w workerSpec, t
 	var out, errb bytes.Buffer
 	cmd.Stdout = &out
 	cmd.Stderr = &errb
-	cmd.Env = append(os.Environ(), "GORACE=halt_on_error=0 history_size=7 log_path="+raceLogPrefix())
+	cmd.Env = append(os.Environ(), "GORACE=halt_on_error=0 exitcode=0 history_size=7 log_path="+raceLogPrefix())
 	if err := cmd.Start(); err != nil {
 		return nil, err
 	}
@@ -148,16 +148,19 @@ func crashInfo(stderr string) (int, string, bool) {
 	return idx, msg, idx >= 0 && msg != ""
 }
 
-var raceLogDir string
+var (
+	raceLogDir  string
+	raceLogOnce sync.Once
+)
 
 // raceLogPrefix: where child processes write race reports (GORACE log_path); the directory lives beside the binary,
 // i.e. inside the scratch directory of this check, and disappears with it.
 func raceLogPrefix() string {
-	if raceLogDir == "" {
+	raceLogOnce.Do(func() {
 		self, _ := os.Executable()
 		raceLogDir = filepath.Join(filepath.Dir(self), "racelogs")
 		_ = os.MkdirAll(raceLogDir, 0o755)
-	}
+	})
 	return filepath.Join(raceLogDir, "race")
 }
 
@@ -195,7 +198,7 @@ func replayFresh1(self, file string, timeout time.Duration) (*replayOut, error) 
 	var out, errb bytes.Buffer
 	cmd.Stdout = &out
 	cmd.Stderr = &errb
-	cmd.Env = append(os.Environ(), "GORACE=halt_on_error=0 history_size=7 log_path="+raceLogPrefix())
+	cmd.Env = append(os.Environ(), "GORACE=halt_on_error=0 exitcode=0 history_size=7 log_path="+raceLogPrefix())
 	if err := cmd.Start(); err != nil {
 		return nil, err
 	}
